@@ -8,7 +8,7 @@ from engine.extract import REPO
 LEVEL = "other"
 MIN_OBLIGATIONS = 30
 THOROUGH_CONFIGS = ("headeronly",)
-TECHNIQUE = "effect rule on the output buffer (no content-based edit or decision once values are in it), writer/reader table agreement (documented placeholders vs the tokeniser's literal set), value-path rule per token class (accessor -> allowed conversions -> applyPadding -> append, exactly once), finite tables of the format spec; statelessness rule on the token classes (no mutable member, local static or const-method write); scope rule for the remove-after count (taken after each appended token, from no hidden token); applyPadding tabulated by cases (588 specifications x values) through engine/conc.py; placeholder text reaches the dispatch intact; LogMessage keeps the text it is given"
+TECHNIQUE = "effect rule on the output buffer (no content-based edit or decision once values are in it), writer/reader table agreement (documented placeholders vs the tokeniser's literal set), value-path rule per token class (accessor -> allowed conversions -> applyPadding -> append, exactly once), finite tables of the format spec; statelessness rule on the token classes (no mutable member, local static or const-method write); scope rule for the remove-after count (taken after each appended token, from no hidden token); applyPadding tabulated by cases (588 specifications x values) through engine/conc.py; placeholder text reaches the dispatch intact; LogMessage keeps the text it is given; a literal run ended by an escape-blind search for \"%{\" with bulk escape resolution; the result buffer of format() is non-null on every path"
 LEVEL_TEXT = ("Output equality for all patterns x values is run-time and not decided. Decided for all patterns and values: the buffer that receives message/attribute values is never edited or "
               "inspected by content afterwards (no in-band control characters), the set of placeholders the tokeniser dispatches on equals the documented set (including the conditionals and the time "
               "keywords), every value token appends applyPadding(value) exactly once with the value taken from the message accessor through lossless conversions only, literals are appended unchanged, "
